@@ -237,7 +237,7 @@ func ruleCurvePolicy(c *Ctx, r *Report) {
 		if st.Fn != host {
 			continue
 		}
-		ok := allLeaves(c.Origins(st.Val, 0), func(v ssa.Value) bool {
+		leafOK := func(v ssa.Value) bool {
 			if isCallResult(v, nameIs(pkgF12+".selectEllipticCurve")) {
 				return true
 			}
@@ -271,7 +271,38 @@ func ruleCurvePolicy(c *Ctx, r *Report) {
 				}
 			}
 			return false
-		})
+		}
+		ok := allLeaves(c.Origins(st.Val, 0), leafOK)
+		if !ok {
+			// a merged value (the selection, or a placeholder on the path that fails): decide per
+			// path which of the merged values the store sees
+			visits, bad := 0, false
+			w := &Walk{Fn: host}
+			w.VisitRaw = func(in ssa.Instruction, _ Env, raw map[*ssa.Phi]ssa.Value) bool {
+				if in != st.Instr {
+					return true
+				}
+				visits++
+				v := unspill(st.Val)
+				for i := 0; i < 4; i++ {
+					phi, isPhi := v.(*ssa.Phi)
+					if !isPhi {
+						break
+					}
+					rv, have := raw[phi]
+					if !have {
+						break
+					}
+					v = unspill(rv)
+				}
+				if !allLeaves(c.Origins(v, 0), leafOK) {
+					bad = true
+				}
+				return true
+			}
+			w.FromEntry()
+			ok = visits > 0 && !bad && !w.overflow
+		}
 		r.Check(ok, rule, short(fn)+":stored", c.ipos(st.Instr), "state.NamedCurve = selected curve", "the server stores a curve that is not the result of the intersection")
 	}
 }
@@ -434,6 +465,16 @@ func ruleExactMembership(c *Ctx, r *Report) {
 						continue
 					}
 					for _, pr := range [][2]ssa.Value{{x.X, x.Y}, {x.Y, x.X}} {
+						// the identity accessor of an interface-typed element, called on both
+						if me, okM := identityAccessor(pr[0], pt); okM {
+							if mc2, okM2 := identityAccessor(pr[1], pt); okM2 {
+								_, okE := isElem(me)
+								_, okC := isCap(mc2)
+								if okE && okC {
+									whole = true
+								}
+							}
+						}
 						fe, okE := isElem(pr[0])
 						fc, okC := isCap(pr[1])
 						if okE && okC && fe == fc {
@@ -488,6 +529,27 @@ func ruleExactMembership(c *Ctx, r *Report) {
 		r.Check(exact, rule, key, c.ipos(call), "membership test is equality of the whole value", "a list is searched for a value with a predicate weaker than equality ("+detail+"): a value that is not in the list counts as present, so a parameter outside the peer's offer or the local policy can be selected")
 	}
 	r.Extra["exact_membership_predicates"] = n
+}
+
+// identityAccessors: for an element type that is an interface, the method whose result is the
+// identity of the value (two values are the same parameter exactly when it agrees). Confirmed by
+// reading: a cipher suite is its IANA number, every comparison of two suites in the module is on ID().
+var identityAccessors = map[string]string{
+	"internal/ciphersuite.CipherSuite": "ID",
+	".CipherSuite":                     "ID",
+}
+
+// identityAccessor: v is recv.M() for the identity accessor M of element type pt; returns recv.
+func identityAccessor(v ssa.Value, pt types.Type) (ssa.Value, bool) {
+	cl, ok := stripConv(v).(*ssa.Call)
+	if !ok || !cl.Call.IsInvoke() || len(cl.Call.Args) != 0 {
+		return nil, false
+	}
+	m, ok := identityAccessors[namedOrType(pt)]
+	if !ok || cl.Call.Method.Name() != m || !types.Identical(cl.Call.Value.Type(), pt) {
+		return nil, false
+	}
+	return cl.Call.Value, true
 }
 
 func isElemBase(base ssa.Value, p *ssa.Parameter) (ssa.Value, bool) {
